@@ -127,7 +127,24 @@ func drawECDSA(rt *rapid.T) (*ecdsa.PrivateKey, string) {
 	d.Add(d, big.NewInt(1))
 	key := &ecdsa.PrivateKey{PublicKey: ecdsa.PublicKey{Curve: c}, D: d}
 	key.X, key.Y = c.ScalarBaseMult(d.Bytes())
-	return key, "ecdsa-" + c.Params().Name
+	label := "ecdsa-" + c.Params().Name
+	if rapid.IntRange(0, 3).Draw(rt, "shortcoord") == 0 {
+		// one key in four has a public point with a coordinate that is shorter than the field (leading zero byte; about
+		// one random key in 128 has): walk the scalar upwards to the next such point
+		size := (c.Params().BitSize + 7) / 8
+		for i := 0; i < 2000; i++ {
+			if len(key.X.Bytes()) < size || len(key.Y.Bytes()) < size {
+				label += "-short-coordinate"
+				break
+			}
+			d.Add(d, big.NewInt(1))
+			if d.Cmp(n) >= 0 {
+				d.SetInt64(1)
+			}
+			key.X, key.Y = c.ScalarBaseMult(d.Bytes())
+		}
+	}
+	return key, label
 }
 
 type c14Case struct {
@@ -190,7 +207,7 @@ type privEqualer interface {
 
 func TestC14Keys(t *testing.T) {
 	const name = "TestC14Keys"
-	rec := evid.New("C14", name, "keys built inside the generator from rapid-drawn bytes: RSA from two generated primes (modulus 1024..2064 bits incl. uneven prime sizes, e in {3,17,257,65537}), ECDSA scalars on P-224/256/384/521 (tiny, near n, leading zero bytes/top bit, random) "+
+	rec := evid.New("C14", name, "keys built inside the generator from rapid-drawn bytes: RSA from two generated primes (modulus 1024..2064 bits incl. uneven prime sizes, e in {3,17,257,65537}), ECDSA scalars on P-224/256/384/521 (tiny, near n, leading zero bytes/top bit, random; one key in four moved to the next point with a coordinate shorter than the field) "+
 		"x every register format (PKCS#1, PKCS#8, SEC1, X.509, Transparent) x private/public half x versions 1.0..1.4 x {binary, XML, JSON}; pipeline: client.Register().WithKeyFormat(f).<builder>(key) -> request message -> encode/decode -> Get response -> encode/decode (binary: received from a TTLV stream on which another message follows before the key is extracted) -> accessors; "+
 		"oracle: key.Equal(original) for every accessor incl. the PEM ones; non-trivial = transparent format or XML/JSON; distinct by (key, format, version, encoding, half)").Attach(t)
 	rapid.Check(t, func(rt *rapid.T) {
